@@ -972,6 +972,75 @@ fn key_kinds(threads: usize, only: Option<&Value>) -> Stats {
     })
 }
 
+/// Lists with repeated entries: every sequence over three credential ids (with differing transports
+/// hints) of length 0..=5 (thorough 6) as allowCredentials / excludeCredentials of the WebAuthn JSON
+/// options and as allowList / excludeList of the CTAP2 CBOR requests - well-formed input; code that
+/// de-duplicates, merges or indexes list entries has one path per repetition pattern.
+fn repeated_one(seq: &[u8]) -> Vec<(&'static str, String)> {
+    use passkey_types::webauthn::{AuthenticatorTransport as T, CredentialCreationOptions, CredentialRequestOptions};
+    let ids: Vec<Vec<u8>> = seq.iter().map(|k| vec![0x60 + k; 16]).collect();
+    let mut out = vec![];
+    let with_hints = |mut d: Vec<passkey_types::webauthn::PublicKeyCredentialDescriptor>| {
+        for (i, x) in d.iter_mut().enumerate() {
+            x.transports = match (i + seq.get(i).copied().unwrap_or(0) as usize) % 3 {
+                0 => None,
+                1 => Some(vec![T::Usb]),
+                _ => Some(vec![T::Internal, T::Hybrid]),
+            };
+        }
+        d
+    };
+    let mut get = crate::drivers::request_options(crate::drivers::Auth { allow: Some(ids.clone()), ..Default::default() });
+    get.public_key.allow_credentials = get.public_key.allow_credentials.map(with_hints);
+    let mut create = crate::drivers::creation_options(crate::drivers::Reg { exclude: Some(ids.clone()), ..Default::default() });
+    create.public_key.exclude_credentials = create.public_key.exclude_credentials.map(with_hints);
+    let gj = serde_json::to_string(&get).unwrap_or_default();
+    let cj = serde_json::to_string(&create).unwrap_or_default();
+    if let Err(p) = par::catch(|| {
+        let _ = serde_json::from_str::<CredentialRequestOptions>(&gj);
+        let _ = serde_json::from_str::<Value>(&gj).map(serde_json::from_value::<CredentialRequestOptions>);
+    }) {
+        out.push(("webauthn::CredentialRequestOptions", p));
+    }
+    if let Err(p) = par::catch(|| {
+        let _ = serde_json::from_str::<CredentialCreationOptions>(&cj);
+        let _ = serde_json::from_str::<Value>(&cj).map(serde_json::from_value::<CredentialCreationOptions>);
+    }) {
+        out.push(("webauthn::CredentialCreationOptions", p));
+    }
+    let ga = crate::drivers::ga_request("example.com", Some(ids.clone()), false, true, true, false, None);
+    let mc = crate::drivers::mc_request("example.com", &[1], Some(ids), true, true, true, false, None);
+    let (mut gb, mut mb) = (vec![], vec![]);
+    let _ = ciborium::ser::into_writer(&ga, &mut gb);
+    let _ = ciborium::ser::into_writer(&mc, &mut mb);
+    if let Err(p) = par::catch(|| cbor::<get_assertion::Request>(&gb)) {
+        out.push(("ctap2::get_assertion::Request", p));
+    }
+    if let Err(p) = par::catch(|| cbor::<make_credential::Request>(&mb)) {
+        out.push(("ctap2::make_credential::Request", p));
+    }
+    out
+}
+fn repeated_entries(tier: Tier, threads: usize, only: Option<&Value>) -> Stats {
+    let depth = tier.pick(5usize, 6);
+    let mut seqs: Vec<Vec<u8>> = vec![vec![]];
+    for d in 1..=depth {
+        for idx in 0..3usize.pow(d as u32) {
+            let mut x = idx;
+            seqs.push((0..d).map(|_| { let o = (x % 3) as u8; x /= 3; o }).collect());
+        }
+    }
+    if let Some(o) = only {
+        seqs.retain(|s| json!({"repeated_entries": s}) == *o);
+    }
+    par::sweep_cases(&seqs, threads, |s, st| {
+        st.case(s, true, "repeated-list-entries");
+        for (dec, p) in repeated_one(s) {
+            st.finding(Finding::new(format!("decoder={dec}/site={}/kind={}", site_file(&p), panic_class(&p)), format!("panicked on a well-formed list with the ids {s:?}: {p}"), json!({"repeated_entries": s})));
+        }
+    })
+}
+
 /// Names derived from the rules of the shipped list (every rule as-is, wildcard instantiations,
 /// parents, siblings, and 1..12 further labels in front): the lookups and the RP-ID verifier must
 /// return for each - the table walk has paths (deepest rules, wildcard under wildcard, exception
@@ -1063,6 +1132,9 @@ pub fn run(ctx: &Ctx) -> Result<Run, String> {
             }
         }
     }
+    let re = repeated_entries(ctx.tier, ctx.threads, None);
+    stats.count("repeated_entry_lists", re.evaluations);
+    stats.merge(re);
     let rn = rule_names(ctx.threads)?;
     stats.count("rule_derived_names", rn.evaluations);
     stats.merge(rn);
@@ -1085,7 +1157,7 @@ pub fn run(ctx: &Ctx) -> Result<Run, String> {
     let ndec = sp.decs.len();
     let mut run = Run::from_stats(
         "exploration",
-        "for each of 28 public decoders (CTAP2 CBOR messages, authenticator data, WebAuthn JSON, base64, U2F raw messages, COSE-key converter, fingerprints, asset links, RP-ID verification, public-suffix lookups): (1) all byte strings up to length 2 (3 thorough) / all strings over an 8-symbol alphabet up to length 5 (7 thorough); (2) every single deviation of valid seed encodings of every message type: truncation at every position, every byte value at every position (CBOR/binary; a 17-symbol menu for JSON/text), and splices at every position of CBOR heads of every major type with declared lengths 2^8..2^64-1 / indefinite, 300- and 100000-deep nesting, JSON structure/number/escape fragments, long and dotted labels (thorough: all pairs of byte-level deviations on short seeds); run in isolated worker processes with a counting allocator (single request > 4 MiB + 32 x input length, or > 256 MiB in total = out of proportion; > 1 GiB refused), 8 MiB stack, per-case watchdog; (2c) well-formed base64 / base64url text, padded or not, of every decoded length 0..4200 (thorough 20000) through Bytes::try_from, try_from_base64url and a JSON Bytes member (must decode to the bytes; no panic at any size boundary); (2e) every name derived from a rule of the shipped list (as-is, wildcard instantiations, parent, sibling, 1..12 further labels in front) through the three lookups and the RP-ID verifier; (2d) key kinds: for the richest seed of every CBOR decoder and every map in it (top level and nested), and for authenticator data with ED resp. AT+ED, every ordered pair of added keys from 19 kinds (small/large/negative integers, text, bytes, floats incl. NaN, -0.0 and infinity, booleans, null, empty array, empty map, tag), in front and at the end - well-formed input, the decoder must return; (2b) COSE keys built as structs (0..2 entries per coordinate from a menu of lengths and types, three label orders, repeated labels included) given to the converter directly; (4) scaling families: 14 well-formed message shapes whose collection (PRF per-credential map, allow/exclude list, parameter list, unknown members, COSE parameters, JSON lists and maps, base64 text) grows to 256, 1024, 4096, 16384 (thorough: 65536) elements, with ids/keys that differ only at the front, only at the end or only in the middle, decoded in isolated workers: 4x the elements may not cost more than 9x the CPU time (judged once the larger run exceeds 10 ms, confirmed by a second measurement) nor an allocation out of proportion; (3b) CTAPHID with 1..300 (4096) channels transmitting at once; (3) CTAPHID: BFS over packet sequences on the real ChannelHandler (alphabet: 2 channels x 8 init heads + 4 continuation sequence numbers x 13 packet sizes), deduplicated on the hook snapshot. Non-trivial = distinct non-empty input",
+        "for each of 28 public decoders (CTAP2 CBOR messages, authenticator data, WebAuthn JSON, base64, U2F raw messages, COSE-key converter, fingerprints, asset links, RP-ID verification, public-suffix lookups): (1) all byte strings up to length 2 (3 thorough) / all strings over an 8-symbol alphabet up to length 5 (7 thorough); (2) every single deviation of valid seed encodings of every message type: truncation at every position, every byte value at every position (CBOR/binary; a 17-symbol menu for JSON/text), and splices at every position of CBOR heads of every major type with declared lengths 2^8..2^64-1 / indefinite, 300- and 100000-deep nesting, JSON structure/number/escape fragments, long and dotted labels (thorough: all pairs of byte-level deviations on short seeds); run in isolated worker processes with a counting allocator (single request > 4 MiB + 32 x input length, or > 256 MiB in total = out of proportion; > 1 GiB refused), 8 MiB stack, per-case watchdog; (2c) well-formed base64 / base64url text, padded or not, of every decoded length 0..4200 (thorough 20000) through Bytes::try_from, try_from_base64url and a JSON Bytes member (must decode to the bytes; no panic at any size boundary); (2f) allow / exclude lists that are every sequence over three ids of length 0..5 (thorough 6), with mixed transports hints, through the JSON option parsers (text and owned value) and the CBOR request decoders; (2e) every name derived from a rule of the shipped list (as-is, wildcard instantiations, parent, sibling, 1..12 further labels in front) through the three lookups and the RP-ID verifier; (2d) key kinds: for the richest seed of every CBOR decoder and every map in it (top level and nested), and for authenticator data with ED resp. AT+ED, every ordered pair of added keys from 19 kinds (small/large/negative integers, text, bytes, floats incl. NaN, -0.0 and infinity, booleans, null, empty array, empty map, tag), in front and at the end - well-formed input, the decoder must return; (2b) COSE keys built as structs (0..2 entries per coordinate from a menu of lengths and types, three label orders, repeated labels included) given to the converter directly; (4) scaling families: 14 well-formed message shapes whose collection (PRF per-credential map, allow/exclude list, parameter list, unknown members, COSE parameters, JSON lists and maps, base64 text) grows to 256, 1024, 4096, 16384 (thorough: 65536) elements, with ids/keys that differ only at the front, only at the end or only in the middle, decoded in isolated workers: 4x the elements may not cost more than 9x the CPU time (judged once the larger run exceeds 10 ms, confirmed by a second measurement) nor an allocation out of proportion; (3b) CTAPHID with 1..300 (4096) channels transmitting at once; (3) CTAPHID: BFS over packet sequences on the real ChannelHandler (alphabet: 2 channels x 8 init heads + 4 continuation sequence numbers x 13 packet sizes), deduplicated on the hook snapshot. Non-trivial = distinct non-empty input",
         true,
         stats,
     );
@@ -1125,6 +1197,10 @@ pub fn replay(_ctx: &Ctx, case: &Value) -> Result<Vec<Finding>, String> {
     }
     if let Some(n) = case.get("rule_name").and_then(|n| n.as_str()) {
         return Ok(rule_name_one(n).map(|p| Finding::new(format!("decoder=public-suffix(rule-derived-name)/site={}/kind={}", site_file(&p), panic_class(&p)), format!("lookup of {n:?} panicked: {p}"), case.clone())).into_iter().collect());
+    }
+    if case.get("repeated_entries").is_some() {
+        let st = repeated_entries(Tier::Thorough, 1, Some(case));
+        return Ok(st.findings.into_values().map(|x| x.0).collect());
     }
     if case.get("key_kinds").is_some() {
         let st = key_kinds(1, Some(case));
